@@ -115,7 +115,7 @@ func (r *Run) Violation(key, what string, replay any) {
 		}
 	}
 	r.violTotal++
-	if r.violKeys[key] || len(r.viol) >= 25 {
+	if r.violKeys[key] || len(r.viol) >= maxViol() {
 		return
 	}
 	r.violKeys[key] = true
@@ -300,3 +300,10 @@ func SeqCount(k, n int) int {
 
 // Quote renders s for a human-readable sample.
 func Quote(s string) string { return strconv.QuoteToASCII(s) }
+
+func maxViol() int {
+	if n, err := strconv.Atoi(os.Getenv("VERIF_MAX_VIOL")); err == nil && n > 0 {
+		return n
+	}
+	return 25
+}
